@@ -484,7 +484,9 @@ pub fn interrupted_histories(which: Which, tier: &str) -> (Acc, SpaceReport) {
     let mut cases: Vec<(RootSpec, u8)> = vec![];
     for (_, root) in family_roots() {
         for spec in family(root) {
-            for d in 2..=(if q { 3 } else { 4 }) {
+            // depth 4 (5 thorough) matters: an interrupted iteration k meets the entries stored by iteration k-1, and
+            // nodes one ply below the root are stored from iteration 3 on. Cases whose free run is too big are dropped below
+            for d in 2..=(if q { 4 } else { 5 }) {
                 cases.push((spec.clone(), d));
             }
         }
@@ -504,11 +506,39 @@ pub fn interrupted_histories(which: Which, tier: &str) -> (Acc, SpaceReport) {
             return;
         }
         let p = free.polls;
+        if *d >= 4 && p > (if q { 12_000 } else { 400_000 }) {
+            acc.count("interrupted histories: (root, depth >= 4) cases skipped because the free run is too large");
+            return;
+        }
         let stride = if q { (p / 48).max(1) } else { (p / 1500).max(1) };
         let audit_budget: u32 = if q { 3_000 } else { 60_000 };
         let b_root = Built { spec: spec.clone(), game: game.clone(), pos, legal };
-        let mut n = 0;
-        while n <= p {
+        // stop points: a fixed stride over the whole run, plus every poll of the first 12 after the start and after each
+        // iteration boundary (the first nodes of an iteration are the principal-variation nodes of the previous one:
+        // the places where an interrupted search meets EXACT entries)
+        let mut points: std::collections::BTreeSet<u64> = std::collections::BTreeSet::new();
+        let mut x = 0;
+        while x <= p {
+            points.insert(x);
+            x += stride;
+        }
+        for m in std::iter::once(0u64).chain(free.iter_marks.iter().copied()) {
+            for k in 0..12u64 {
+                if m + k <= p {
+                    points.insert(m + k);
+                }
+            }
+        }
+        // ... and every poll made on entering a node one ply below the root (plus the first three two plies below after
+        // each): there the interrupted iteration stands on a node that the previous iteration may have stored as exact
+        let shallow_cap = if q { 400 } else { 20_000 };
+        let step = (free.shallow_polls.len() / shallow_cap).max(1);
+        for (i, x) in free.shallow_polls.iter().enumerate() {
+            if i % step == 0 {
+                points.insert(*x);
+            }
+        }
+        for n in points {
             let mut table = new_table();
             let mut cfg = SearchCfg::depth(*d);
             cfg.stop_at = n;
@@ -548,10 +578,9 @@ pub fn interrupted_histories(which: Which, tier: &str) -> (Acc, SpaceReport) {
                     }
                 }
             }
-            n += stride;
         }
         if acc.samples.len() < 2 {
-            acc.sample(json::obj(vec![("root", json::s(spec.text())), ("depth", json::i(*d)), ("polls_of_the_free_run", json::i(p)), ("stop_points", json::s(format!("0..={} step {}", p, stride)))]));
+            acc.sample(json::obj(vec![("root", json::s(spec.text())), ("depth", json::i(*d)), ("polls_of_the_free_run", json::i(p)), ("stop_points", json::s(format!("0..={} step {}, plus the 12 polls after the start and after each of the iteration boundaries {:?}", p, stride, free.iter_marks)))]));
         }
     });
     let rep = SpaceReport { name: format!("interrupted histories: {} (root, depth) cases of the families, a search stopped inside every poll (all when P <= 48, else ~48 by fixed stride; 1500 in the thorough tier), then the same root again at depth 1 and d, a table audit to depth d, and depth-1/2 searches of every position whose cached move is not legal there", cases.len()), states: acc.states, exhaustive: true, note: format!("[{:.1}s]", t0.elapsed().as_secs_f64()) };
